@@ -1,6 +1,7 @@
 package main
 
 import (
+	"crypto/sha256"
 	"encoding/json"
 	"fmt"
 	"go/ast"
@@ -9,14 +10,23 @@ import (
 	"path/filepath"
 	"sort"
 	"strings"
+	"sync"
+	"syscall"
+	"time"
 )
 
-// Thorough tier, part 1: replay of the seeded changes. Every change under /verif/seeded whose
-// meta.json names this property is applied to a scratch copy of the analysed repository (outside
-// /repo and /verif, removed afterwards) and the quick rule set is run on the copy in a child
-// process. The verdict must be the one recorded when the change was confirmed ("detected" → exit 1,
-// "silent" → exit 0, "not-decided" → either). A mismatch means the checker regressed: UNDECIDED
-// (exit 2), never a VIOLATION — the analysed tree is not at fault.
+// Thorough tier, part 1: replay of the recorded changes. Two corpora are kept under /verif:
+// seeded/ (changes that break a property, each with the checks that must report it) and benign/
+// (changes that keep the behaviour, on which every check must stay silent). Each change is applied
+// to a scratch copy of the analysed repository (outside /repo and /verif, removed afterwards) and
+// the quick rule set is run on the copy in a child process. The verdict must be the recorded one
+// ("detected" → exit 1, "silent" → exit 0, "not-decided" → either). A mismatch means the checker
+// regressed: UNDECIDED (exit 2), never a VIOLATION — the analysed tree is not at fault.
+//
+// The expectations were recorded against one particular tree (seeded/BASE_TREE.json holds its
+// content hash). When the analysed tree is a different one, a patch may no longer apply or may
+// interact with the difference; the replay is then still run and written to the evidence, but a
+// mismatch is not enforced: it says nothing about the checker and nothing about the tree.
 type seedReplay struct {
 	Seed     string `json:"seed"`
 	Expected string `json:"expected"`
@@ -24,14 +34,107 @@ type seedReplay struct {
 	Rule     string `json:"first_rule,omitempty"`
 }
 
+// treeHash: sha256 over (path, sha256(content)) of every source file of the repository outside .git.
+func treeHash(repo string) string {
+	var files []string
+	filepath.Walk(repo, func(p string, info os.FileInfo, err error) error {
+		if err != nil {
+			return nil
+		}
+		if info.IsDir() {
+			if info.Name() == ".git" {
+				return filepath.SkipDir
+			}
+			return nil
+		}
+		if info.Mode().IsRegular() {
+			switch filepath.Ext(p) {
+			case ".go", ".mod", ".sum", ".py", ".bess", ".txt", ".json":
+				// what the loaders read: Go sources and module files, the BESS pipeline, P4Info, the route controller
+				files = append(files, p)
+			}
+		}
+		return nil
+	})
+	sort.Strings(files)
+	h := sha256.New()
+	for _, f := range files {
+		b, err := os.ReadFile(f)
+		if err != nil {
+			continue
+		}
+		rel, _ := filepath.Rel(repo, f)
+		fmt.Fprintf(h, "%s\x00%x\n", filepath.ToSlash(rel), sha256.Sum256(b))
+	}
+	return fmt.Sprintf("%x", h.Sum(nil))
+}
+
+func recordedBase(vdir string) string {
+	b, err := os.ReadFile(filepath.Join(vdir, "seeded", "BASE_TREE.json"))
+	if err != nil {
+		return ""
+	}
+	var v struct {
+		Tree string `json:"tree"`
+	}
+	json.Unmarshal(b, &v)
+	return v.Tree
+}
+
+func replayOne(exe, prop, vdir, repo, patch string) (got, rule string) {
+	scratch, err := os.MkdirTemp("", "upfcheck-seed-")
+	if err != nil {
+		return "cannot create scratch directory: " + err.Error(), ""
+	}
+	defer os.RemoveAll(scratch)
+	cp := exec.Command("rsync", "-a", "--exclude", ".git", strings.TrimRight(repo, "/")+"/", filepath.Join(scratch, "repo")+"/")
+	if o, err := cp.CombinedOutput(); err != nil {
+		return fmt.Sprintf("copy failed: %v %s", err, o), ""
+	}
+	ap := exec.Command("patch", "-p1", "-s", "-i", patch)
+	ap.Dir = filepath.Join(scratch, "repo")
+	if o, err := ap.CombinedOutput(); err != nil {
+		return "patch does not apply: " + strings.TrimSpace(string(o)), ""
+	}
+	child := exec.Command(exe, "-prop", prop, "-tier", "quick", "-repo", filepath.Join(scratch, "repo"), "-verif", vdir, "-out", filepath.Join(scratch, "ev"))
+	child.Env = append(os.Environ(), "VERIF_TIER=quick")
+	o, err := child.CombinedOutput()
+	code := 0
+	if ee, ok := err.(*exec.ExitError); ok {
+		code = ee.ExitCode()
+	} else if err != nil {
+		return "child failed: " + err.Error(), ""
+	}
+	switch code {
+	case 0:
+		return "silent", ""
+	case 1:
+		for _, l := range strings.Split(string(o), "\n") {
+			if strings.HasPrefix(strings.TrimSpace(l), "rule=") && rule == "" {
+				rule = strings.TrimSpace(l)
+			}
+		}
+		return "detected", rule
+	}
+	for _, l := range strings.Split(string(o), "\n") {
+		if strings.HasPrefix(l, "UNDECIDED") && rule == "" {
+			rule = l
+		}
+	}
+	return "undecided", rule
+}
+
 func replaySeeds(prop, vdir, repo string) []seedReplay {
-	dirs, _ := filepath.Glob(filepath.Join(vdir, "seeded", "*"))
-	sort.Strings(dirs)
 	exe, err := os.Executable()
 	if err != nil {
 		brokenf(prop, "thorough", "cannot find own executable: %v", err)
 	}
-	var out []seedReplay
+	type job struct {
+		name, patch, expect string
+	}
+	var jobs []job
+	dirs, _ := filepath.Glob(filepath.Join(vdir, "seeded", "*"))
+	sort.Strings(dirs)
 	for _, d := range dirs {
 		b, err := os.ReadFile(filepath.Join(d, "meta.json"))
 		if err != nil {
@@ -48,60 +151,107 @@ func replaySeeds(prop, vdir, repo string) []seedReplay {
 		if meta.Patch == "" {
 			patch = filepath.Join(d, "patch.diff")
 		}
-		scratch, err := os.MkdirTemp("", "upfcheck-seed-")
-		if err != nil {
-			brokenf(prop, "thorough", "cannot create scratch directory: %v", err)
-		}
-		res := seedReplay{Seed: filepath.Base(d), Expected: meta.Expect[prop]}
-		func() {
-			defer os.RemoveAll(scratch)
-			cp := exec.Command("rsync", "-a", "--exclude", ".git", strings.TrimRight(repo, "/")+"/", filepath.Join(scratch, "repo")+"/")
-			if o, err := cp.CombinedOutput(); err != nil {
-				brokenf(prop, "thorough", "copy failed: %v %s", err, o)
-			}
-			ap := exec.Command("patch", "-p1", "-s", "-i", patch)
-			ap.Dir = filepath.Join(scratch, "repo")
-			if o, err := ap.CombinedOutput(); err != nil {
-				res.Got = "patch does not apply: " + strings.TrimSpace(string(o))
-				return
-			}
-			child := exec.Command(exe, "-prop", prop, "-tier", "quick", "-repo", filepath.Join(scratch, "repo"), "-verif", vdir, "-out", filepath.Join(scratch, "ev"))
-			child.Env = append(os.Environ(), "VERIF_TIER=quick")
-			o, err := child.CombinedOutput()
-			code := 0
-			if ee, ok := err.(*exec.ExitError); ok {
-				code = ee.ExitCode()
-			} else if err != nil {
-				res.Got = "child failed: " + err.Error()
-				return
-			}
-			switch code {
-			case 0:
-				res.Got = "silent"
-			case 1:
-				res.Got = "detected"
-				for _, l := range strings.Split(string(o), "\n") {
-					if strings.HasPrefix(strings.TrimSpace(l), "rule=") && res.Rule == "" {
-						res.Rule = strings.TrimSpace(l)
-					}
+		jobs = append(jobs, job{filepath.Base(d), patch, meta.Expect[prop]})
+	}
+	// behaviour-preserving changes: every check stays silent on every one of them
+	bdirs, _ := filepath.Glob(filepath.Join(vdir, "benign", "*", "patch.diff"))
+	sort.Strings(bdirs)
+	anchored := anchorFiles(prop, vdir)
+	for _, p := range bdirs {
+		id := filepath.Base(filepath.Dir(p))
+		// the ones written against this property, and the ones that touch a file the property is anchored in
+		// (the full 100 × 20 matrix is scripts/benign_matrix.sh; it was silent when the corpus was recorded)
+		rel := strings.HasPrefix(id, prop+"-")
+		if b, err := os.ReadFile(p); err == nil && !rel {
+			for _, l := range strings.Split(string(b), "\n") {
+				if strings.HasPrefix(l, "+++ b/") && anchored[strings.TrimSpace(strings.TrimPrefix(l, "+++ b/"))] {
+					rel = true
 				}
-			default:
-				res.Got = "undecided"
 			}
-		}()
-		out = append(out, res)
+		}
+		if rel {
+			jobs = append(jobs, job{"benign/" + id, p, "silent"})
+		}
+	}
+	out := make([]seedReplay, len(jobs))
+	var wg sync.WaitGroup
+	sem := make(chan struct{}, 8)
+	for i, j := range jobs {
+		wg.Add(1)
+		go func(i int, j job) {
+			defer wg.Done()
+			sem <- struct{}{}
+			defer func() { <-sem }()
+			// machine-wide cap: thorough runs of several properties may be started side by side
+			release := acquireSlot()
+			defer release()
+			got, rule := replayOne(exe, prop, vdir, repo, j.patch)
+			out[i] = seedReplay{Seed: j.name, Expected: j.expect, Got: got, Rule: rule}
+		}(i, j)
+	}
+	wg.Wait()
+	return out
+}
+
+// acquireSlot takes one of 12 advisory file locks in the temp directory, so that at most 12 replay
+// children run on the machine at a time however many thorough checks were started (each child is a
+// full load of the repository, about 1.2 GB).
+func acquireSlot() func() {
+	for {
+		for i := 0; i < 12; i++ {
+			f, err := os.OpenFile(filepath.Join(os.TempDir(), fmt.Sprintf("upfcheck-replay-slot-%d.lock", i)), os.O_CREATE|os.O_RDWR, 0o666)
+			if err != nil {
+				return func() {} // no temp directory to coordinate in: run unthrottled
+			}
+			if syscall.Flock(int(f.Fd()), syscall.LOCK_EX|syscall.LOCK_NB) == nil {
+				return func() { syscall.Flock(int(f.Fd()), syscall.LOCK_UN); f.Close() }
+			}
+			f.Close()
+		}
+		time.Sleep(100 * time.Millisecond)
+	}
+}
+
+// anchorFiles: the files properties.jsonl anchors the property in.
+func anchorFiles(prop, vdir string) map[string]bool {
+	out := map[string]bool{}
+	b, err := os.ReadFile(filepath.Join(vdir, "properties.jsonl"))
+	if err != nil {
+		return out
+	}
+	for _, l := range strings.Split(string(b), "\n") {
+		var p struct {
+			ID      string `json:"id"`
+			Anchors struct {
+				Files []string `json:"files"`
+			} `json:"anchors"`
+		}
+		if json.Unmarshal([]byte(l), &p) == nil && p.ID == prop {
+			for _, f := range p.Anchors.Files {
+				out[f] = true
+			}
+		}
 	}
 	return out
 }
 
-func checkReplay(prop string, rs []seedReplay) {
+func checkReplay(prop string, rs []seedReplay, enforce bool) {
+	mismatch := 0
 	for _, r := range rs {
 		okR := r.Expected == r.Got || r.Expected == "not-decided" && (r.Got == "silent" || r.Got == "detected")
-		if !okR {
-			brokenf(prop, "thorough.seed-replay", "seeded change %s: expected %s, got %s — the rule set no longer behaves as confirmed (checker regression, not a finding about the tree)", r.Seed, r.Expected, r.Got)
+		if okR {
+			continue
+		}
+		mismatch++
+		if enforce {
+			brokenf(prop, "thorough.seed-replay", "recorded change %s: expected %s, got %s (%s) — the rule set no longer behaves as confirmed (checker regression, not a finding about the tree)", r.Seed, r.Expected, r.Got, r.Rule)
 		}
 	}
-	fmt.Printf("%s thorough: %d seeded changes replayed, all as recorded\n", prop, len(rs))
+	if enforce {
+		fmt.Printf("%s thorough: %d recorded changes replayed, all as recorded\n", prop, len(rs))
+	} else {
+		fmt.Printf("%s thorough: %d recorded changes replayed on a tree other than the one the expectations were recorded on; %d differ (listed in the evidence, not enforced)\n", prop, len(rs), mismatch)
+	}
 }
 
 // Thorough tier, part 2: completeness of the IDX enumeration against the compiler. `go build
